@@ -230,7 +230,7 @@ func alwaysSucceedsTable(c *Check, r *Repo) {
 			if fd, _ := findDecl(it, "node", "checkAlwaysSucceedsRecursion"); fd != nil {
 				it.hooks[fd] = func(it *Interp, cl *Closure, args []Value) ([]Value, bool) {
 					if nd, ok := cl.recv.(*Obj); ok {
-						if oi := m.opaque[nd]; oi != nil {
+						if oi := m.oinfo(nd); oi != nil {
 							return []Value{oi.always}, true
 						}
 					}
